@@ -33,6 +33,11 @@ def known(f):
         old = re.search(r"was=\[\d+ N\(basic ecall.*? ri\[([^\]]*)\]", f["why"])
         if old and not re.search(r"(^|;)17=c:(10|93)(;|$)", old.group(1)):
             return "rerun:avail-learns-exit-ecall: a further value-analysis run turns an ecall into a known exit after the last termination step cut an edge"
+    # the other recorded finding: the node behind an exit that was cut off by the LAST termination step (it has no
+    # predecessor any more, before and after the extra run) still carries the facts computed before the cut
+    m = re.search(r"pass=a node=\[(\d+) (?:(?!was=).)*? <\[\] (?:(?!was=).)*?\] was=\[(\d+) .*? <\[\] ", f["why"])
+    if m and m.group(1) == m.group(2):
+        return "rerun:stale-facts-behind-late-exit: a node cut off by the last ecall-termination step keeps value facts computed before the cut"
     return None
 
 
